@@ -346,11 +346,36 @@ def _finish(fb, it, final, origin, counts, raw, external):
     meta = dict(path=fb.path, file=fb.rel, line0=it['line0'], line1=it['line1'],
                 sha256=hashlib.sha256(raw.encode()).hexdigest()[:16], rules=counts,
                 props=[p for p in fb.opts.get('props', '').split(',') if p], external_body=external,
-                tline=fb.tline, origin=origin)
+                assumed_from=fb.opts.get('assumed_from'), tline=fb.tline, origin=origin)
     return final, meta
 
 
 DIRECTIVE = re.compile(r'^\s*//@(\w+)\s*(.*)$')
+
+
+def _expand_includes(path, assume=None, depth=0):
+    """returns list of (line, 'file:lineno', assume_mode).  `//@include f.inc [assume]`: with `assume`, every
+    //@fn of the included file becomes external_body here (its contract is proved in the unit that owns it)."""
+    if depth > 5:
+        raise WeaveError('include depth')
+    out = []
+    base = os.path.dirname(path)
+    try:
+        lines = open(path, encoding='utf-8').read().split('\n')
+    except OSError as e:
+        raise WeaveError(f'cannot read template {path}: {e}')
+    for n, l in enumerate(lines, 1):
+        m = DIRECTIVE.match(l)
+        if m and m.group(1) == 'include':
+            args = m.group(2).split()
+            sub = os.path.join(base, args[0])
+            mode = assume
+            if 'assume' in args[1:]:
+                mode = os.path.basename(args[0])
+            out += _expand_includes(sub, mode, depth + 1)
+        else:
+            out.append((l, f'{os.path.basename(path)}:{n}', assume))
+    return out
 
 
 def process_template(tmpl_path, repo, reach=False):
@@ -360,7 +385,7 @@ def process_template(tmpl_path, repo, reach=False):
     fn_meta = []     # per extracted function: meta + [first_line, last_line] in assembled file
     item_meta = []
     unit = dict(rlimit='100')
-    tlines = open(tmpl_path, encoding='utf-8').read().split('\n')
+    tlines = _expand_includes(tmpl_path)
     fb = None
     i = 0
 
@@ -375,9 +400,8 @@ def process_template(tmpl_path, repo, reach=False):
                 out_origin.append(('tmpl',))
 
     while i < len(tlines):
-        line = tlines[i]
+        line, tl, assume_mode = tlines[i]
         m = DIRECTIVE.match(line)
-        tl = i + 1
         i += 1
         if not m:
             if fb is not None:
@@ -411,6 +435,9 @@ def process_template(tmpl_path, repo, reach=False):
             pos, kv = _kv(args)
             for flag in pos[2:]:
                 kv[flag] = True
+            if assume_mode:
+                kv['external_body'] = True
+                kv['assumed_from'] = assume_mode
             fb = FnBlock(pos[0], pos[1], kv, tl)
         elif d in ('spec', 'first'):
             if fb is None:
